@@ -598,7 +598,9 @@ func c16(g *Gen) {
 	n := g.N(8, 150)
 	for i := 0; i < n; i++ {
 		prefix := fmt.Sprintf("dc%d/", i)
+		dcForce = map[int]string{1: "no-tag", 2: "detached"}[i]
 		prog, cls := g.genDeepcopyProgram(prefix, 1+g.R.Intn(3), i%2 == 1)
+		dcForce = ""
 		if i == 0 {
 			prog, cls = dcFixedProgram(prefix), []string{"dc-fixed-shapes"}
 		}
